@@ -7,6 +7,7 @@ import (
 	"go/constant"
 	"go/token"
 	"go/types"
+	"regexp"
 	"sort"
 	"strings"
 
@@ -52,32 +53,33 @@ type Closure struct {
 }
 
 type Val struct {
-	T   Term
-	Typ types.Type
-	Tup []Val
-	Loc *Loc
-	Clo *Closure
-	SFn *ssa.Function
-	Dyn *Val
-	Org string
-	Src *Loc
-	From *CallEvent // for a Seq value: the call that produced it
-	Idx  Term       // for an element of a constant function table: the index
-	Elems []Val     // for a slice built from a local array literal: its elements (Go-side)
+	T     Term
+	Typ   types.Type
+	Tup   []Val
+	Loc   *Loc
+	Clo   *Closure
+	SFn   *ssa.Function
+	Dyn   *Val
+	Org   string
+	Src   *Loc
+	From  *CallEvent // for a Seq value: the call that produced it
+	Idx   Term       // for an element of a constant function table: the index
+	Elems []Val      // for a slice built from a local array literal: its elements (Go-side)
 }
 
 type CallEvent struct {
-	Kind    string // "fn", "invoke", "static"
-	FnTerm  Term
-	Recv    Term
-	Method  string
-	Static  *ssa.Function
-	Args    []Val
-	Results []Val
-	Desc    string
-	Org     string
-	From    *CallEvent
+	Kind      string // "fn", "invoke", "static"
+	FnTerm    Term
+	Recv      Term
+	Method    string
+	Static    *ssa.Function
+	Args      []Val
+	Results   []Val
+	Desc      string
+	Org       string
+	From      *CallEvent
 	IfaceName string
+	NoHavoc   bool
 }
 
 type deferRec struct {
@@ -92,28 +94,28 @@ type lockEv struct {
 }
 
 type State struct {
-	pc      []Term
-	cells   map[*Cell]Val
-	esc     map[*Cell]bool
-	heap    map[string]Term
-	calls   []*CallEvent
-	callsUnknown bool
-	held    []string       // ghost lock set (terms of mutex locations)
-	lockLog []string       // Lock events (for atomic)
-	owned   []ownedRec     // O-OWN
-	stopped Term           // O-SEQ ghost flag (producer side)
-	seqOn   bool
-	topN    int            // fresh refs allocated on this path
-	topBase Term
-	depth   int
-	ghost   map[string]Term
+	pc             []Term
+	cells          map[*Cell]Val
+	esc            map[*Cell]bool
+	heap           map[string]Term
+	calls          []*CallEvent
+	callsUnknown   bool
+	held           []string   // ghost lock set (terms of mutex locations)
+	lockLog        []string   // Lock events (for atomic)
+	owned          []ownedRec // O-OWN
+	stopped        Term       // O-SEQ ghost flag (producer side)
+	seqOn          bool
+	topN           int // fresh refs allocated on this path
+	topBase        Term
+	depth          int
+	ghost          map[string]Term
 	guardedOutside []string
-	condIdx []int  // indices into pc that are branch conditions
-	pend    string // goal of the last obligation (its assumption is a branch condition)
-	epoch    string                  // id of the last heap havoc on this path
-	modEpoch []modEpoch              // partial havocs (modifies items) since then
-	arrElems map[*Cell]map[int64]Val // Go-side view of local array literals (varargs)
-	resp    []RespEvent              // ghost HTTP response: header sets, status, body writes
+	condIdx        []int                   // indices into pc that are branch conditions
+	pend           string                  // goal of the last obligation (its assumption is a branch condition)
+	epoch          string                  // id of the last heap havoc on this path
+	modEpoch       []modEpoch              // partial havocs (modifies items) since then
+	arrElems       map[*Cell]map[int64]Val // Go-side view of local array literals (varargs)
+	resp           []RespEvent             // ghost HTTP response: header sets, status, body writes
 }
 
 type modEpoch struct {
@@ -122,10 +124,10 @@ type modEpoch struct {
 }
 
 type RespEvent struct {
-	Kind  string // "header", "status", "body", "bodycopy"
-	Key   string
-	KeyT  Term
-	Val   Term
+	Kind string // "header", "status", "body", "bodycopy"
+	Key  string
+	KeyT Term
+	Val  Term
 }
 
 type ownedRec struct {
@@ -136,26 +138,26 @@ type ownedRec struct {
 
 func (st *State) clone() *State {
 	n := &State{
-		pc:      st.pc[:len(st.pc):len(st.pc)],
-		cells:   make(map[*Cell]Val, len(st.cells)),
-		esc:     make(map[*Cell]bool, len(st.esc)),
-		heap:    make(map[string]Term, len(st.heap)),
-		calls:   st.calls[:len(st.calls):len(st.calls)],
-		callsUnknown: st.callsUnknown,
-		held:    append([]string(nil), st.held...),
-		lockLog: append([]string(nil), st.lockLog...),
-		owned:   append([]ownedRec(nil), st.owned...),
-		stopped: st.stopped,
-		seqOn:   st.seqOn,
-		topN:    st.topN,
-		topBase: st.topBase,
-		depth:   st.depth,
-		ghost:   make(map[string]Term, len(st.ghost)),
+		pc:             st.pc[:len(st.pc):len(st.pc)],
+		cells:          make(map[*Cell]Val, len(st.cells)),
+		esc:            make(map[*Cell]bool, len(st.esc)),
+		heap:           make(map[string]Term, len(st.heap)),
+		calls:          st.calls[:len(st.calls):len(st.calls)],
+		callsUnknown:   st.callsUnknown,
+		held:           append([]string(nil), st.held...),
+		lockLog:        append([]string(nil), st.lockLog...),
+		owned:          append([]ownedRec(nil), st.owned...),
+		stopped:        st.stopped,
+		seqOn:          st.seqOn,
+		topN:           st.topN,
+		topBase:        st.topBase,
+		depth:          st.depth,
+		ghost:          make(map[string]Term, len(st.ghost)),
 		guardedOutside: append([]string(nil), st.guardedOutside...),
-		condIdx: st.condIdx[:len(st.condIdx):len(st.condIdx)],
-		resp:    st.resp[:len(st.resp):len(st.resp)],
-		epoch:   st.epoch,
-		modEpoch: st.modEpoch[:len(st.modEpoch):len(st.modEpoch)],
+		condIdx:        st.condIdx[:len(st.condIdx):len(st.condIdx)],
+		resp:           st.resp[:len(st.resp):len(st.resp)],
+		epoch:          st.epoch,
+		modEpoch:       st.modEpoch[:len(st.modEpoch):len(st.modEpoch)],
 	}
 	if len(st.arrElems) > 0 {
 		n.arrElems = make(map[*Cell]map[int64]Val, len(st.arrElems))
@@ -204,18 +206,18 @@ func (st *State) assumeCond(t Term) {
 }
 
 type Frame struct {
-	fn       *ssa.Function
-	vals     map[ssa.Value]Val
-	defers   []deferRec
-	onReturn func(st *State, results []Val)
-	onPanic  func(st *State)
-	depth    int
-	clo      *Closure
-	params   []Val
-	isEntry  bool
-	loops    *loopInfo
+	fn          *ssa.Function
+	vals        map[ssa.Value]Val
+	defers      []deferRec
+	onReturn    func(st *State, results []Val)
+	onPanic     func(st *State)
+	depth       int
+	clo         *Closure
+	params      []Val
+	isEntry     bool
+	loops       *loopInfo
 	inlinedFrom string
-	auto     map[*ssa.BasicBlock][]autoInv
+	auto        map[*ssa.BasicBlock][]autoInv
 }
 
 func (fr *Frame) clone() *Frame {
@@ -246,43 +248,46 @@ type Oblig struct {
 }
 
 type Exec struct {
-	L       *Loaded
-	d       *Decls
-	te      *TypeEnv
-	cs      *ContractSet
-	fn      *ssa.Function
-	ctr     *Contract
-	obls    []*Oblig
-	paths   int
-	budget  int
-	notes   map[string]int
-	cellN   int
-	entryHeap map[string]Term
-	entryParams []Val
-	inputs  map[string]Term
-	classes map[string]bool
-	oblCount map[string]int
-	fnKey   string
-	truncated bool
-	curPos  token.Pos
-	inlineStack []*ssa.Function
-	extraAssume []Term
-	resultVals []Val
-	funcsUsed map[string]bool
-	trusted map[string]bool
+	L               *Loaded
+	d               *Decls
+	te              *TypeEnv
+	cs              *ContractSet
+	fn              *ssa.Function
+	ctr             *Contract
+	obls            []*Oblig
+	paths           int
+	budget          int
+	notes           map[string]int
+	cellN           int
+	entryHeap       map[string]Term
+	entryParams     []Val
+	inputs          map[string]Term
+	classes         map[string]bool
+	oblCount        map[string]int
+	fnKey           string
+	truncated       bool
+	curPos          token.Pos
+	inlineStack     []*ssa.Function
+	extraAssume     []Term
+	resultVals      []Val
+	funcsUsed       map[string]bool
+	trusted         map[string]bool
 	executedInPlace map[*ssa.Function]bool
-	exclusions map[string]Term
-	fvCells map[string]*Cell
-	fvPtrs  map[*ssa.FreeVar]Val
-	immutKeys map[string]bool
-	outerVals map[string]Val
-	specDepth int
-	retPos token.Pos
-	exitFrame *Frame
-	privateRefs []privateRef
-	epochN int
-	freshTypes map[string]types.Type
-	sortedBy map[string]func(a, b Term) (Term, []Term, bool)
+	exclusions      map[string]Term
+	fvCells         map[string]*Cell
+	fvPtrs          map[*ssa.FreeVar]Val
+	immutKeys       map[string]bool
+	outerVals       map[string]Val
+	specDepth       int
+	retPos          token.Pos
+	exitFrame       *Frame
+	privateRefs     []privateRef
+	epochN          int
+	freshTypes      map[string]types.Type
+	sortedBy        map[string]func(a, b Term) (Term, []Term, bool)
+	entryHeld       int
+	refComp         map[string]string
+	closedDone      map[string]bool
 }
 
 type privateRef struct {
@@ -351,11 +356,61 @@ func (x *Exec) heapGet(st *State, key, sort string) Term {
 		}
 	}
 	st.heap[key] = t
+	x.closedFact(st, key, t)
 	return t
 }
 
 func (x *Exec) fieldComp(si *StructInfo, idx int) (string, string) {
-	return "F_" + si.Sort + "__" + sanitize(si.FNames[idx]), ArraySort("Int", si.FSorts[idx])
+	key := "F_" + si.Sort + "__" + sanitize(si.FNames[idx])
+	if isRefType(si.FTypes[idx]) {
+		x.markRefComp(key, "")
+	}
+	return key, ArraySort("Int", si.FSorts[idx])
+}
+
+func isRefType(T types.Type) bool {
+	switch T.Underlying().(type) {
+	case *types.Pointer, *types.Map, *types.Chan:
+		return true
+	}
+	return false
+}
+
+func (x *Exec) markRefComp(key, keySort string) {
+	if x.refComp == nil {
+		x.refComp = map[string]string{}
+	}
+	x.refComp[key] = keySort
+}
+
+// closedFact: every reference stored in a heap component was allocated
+// before "now" (so it differs from anything allocated later on this path).
+func (x *Exec) closedFact(st *State, key string, t Term) {
+	ks, ok := x.refComp[key]
+	if !ok {
+		return
+	}
+	if st.topBase.IsZero() {
+		st.topBase = Term{"top0", "Int"}
+		x.d.DeclareFun("top0", "(declare-const top0 Int)")
+	}
+	if !regexp.MustCompile(`^[A-Za-z0-9_!]+$`).MatchString(t.S) {
+		return // only for named component symbols (entry heap, post-havoc heaps)
+	}
+	top := fmt.Sprintf("(+ %s %d)", st.topBase.S, st.topN)
+	if x.closedDone == nil {
+		x.closedDone = map[string]bool{}
+	}
+	if x.closedDone[t.S] {
+		return
+	}
+	x.closedDone[t.S] = true
+	// the component symbol and the allocation mark are constants: a global fact
+	if ks == "" {
+		x.d.Axiom(fmt.Sprintf("(forall ((i_h Int)) (! (<= (select %s i_h) %s) :pattern ((select %s i_h))))", t.S, top, t.S))
+	} else {
+		x.d.Axiom(fmt.Sprintf("(forall ((m_h Int) (k_h %s)) (! (<= (select (select %s m_h) k_h) %s) :pattern ((select (select %s m_h) k_h))))", ks, t.S, top, t.S))
+	}
 }
 
 func (x *Exec) cellComp(T types.Type) (string, string) {
@@ -365,7 +420,12 @@ func (x *Exec) cellComp(T types.Type) (string, string) {
 
 func (x *Exec) mapComps(T *types.Map) (hasKey, hasSort, valKey, valSort string) {
 	ks, vs := x.te.SortOf(T.Key()), x.te.SortOf(T.Elem())
-	n := sanitize(ks) + "__" + sanitize(vs)
+	// components are per Go key/element type (not per sort): maps of
+	// different Go types can never alias
+	n := sanitize(canonTypeName(T.Key())) + "__" + sanitize(canonTypeName(T.Elem()))
+	if isRefType(T.Elem()) {
+		x.markRefComp("Mval_"+n, ks)
+	}
 	return "Mhas_" + n, ArraySort("Int", ArraySort(ks, "Bool")), "Mval_" + n, ArraySort("Int", ArraySort(ks, vs))
 }
 
@@ -424,9 +484,16 @@ func (x *Exec) havocHeap(st *State, why string) {
 		}
 	}
 	// the callee may allocate
+	oldTop := Term{"0", "Int"}
+	if !st.topBase.IsZero() {
+		oldTop = Term{fmt.Sprintf("(+ %s %d)", st.topBase.S, st.topN), "Int"}
+	}
 	st.topBase = x.d.Fresh("top", "Int")
-	st.assume(Ge(st.topBase, IntLit(0)))
+	st.assume(Ge(st.topBase, oldTop))
 	st.topN = 0
+	for k, t := range st.heap {
+		x.closedFact(st, k, t)
+	}
 }
 
 // immutComp: heap components of fields declared `immutable` survive havoc.
@@ -768,7 +835,7 @@ func (x *Exec) constVal(c *ssa.Const) Val {
 }
 
 type loopInfo struct {
-	headers map[*ssa.BasicBlock]int          // header → ordinal
+	headers map[*ssa.BasicBlock]int                      // header → ordinal
 	body    map[*ssa.BasicBlock]map[*ssa.BasicBlock]bool // header → body blocks
 }
 
